@@ -85,6 +85,10 @@ def run_unit(unit, rng, ctx):
             data = data.astype(dt_)
             if not data.any():
                 data[tuple(int(rng.integers(s_)) for s_ in data.shape)] = 1
+        if data.dtype.kind == 'f' and rng.integers(2) and (data == 0).any():
+            # empty voxels stored as -0.0 (rounded ringing of a smoothed density, "-0.00000E+00" in text files)
+            data = np.where((data == 0) & (rng.uniform(size=data.shape) < 0.6), -0.0, data).astype(data.dtype)
+            ctx.count('densities_with_negative_zero_voxels', bool(np.signbit(data[data == 0]).any()))
         # memory layout: C order, Fortran order, transposed / axis-swapped views, strided and reversed views
         layout = str(rng.choice(['C', 'C', 'F', 'T', 'swap', 'stride', 'rev']))
         if layout == 'F':
